@@ -85,6 +85,7 @@ class Function:
         self.parsed = False
         self.impl_loc = None  # (file, line) if the name contains <impl at ...>
         self.span = None
+        self.prog = None      # owning Program (cross-crate execution switches engines on it)
 
 
 # ---------------------------------------------------------------------------------------------------------------------
@@ -433,6 +434,9 @@ class Program:
                 self.literal_consts.setdefault(ml.group(1), []).append(ml.group(3))
         while i < n:
             line = lines[i]
+            if (line.startswith('const ') or line.startswith('static ')) and line.rstrip().endswith(';'):
+                i += 1          # one-line item (`const NAME: T = const V;`): it has no body that a following function could be mistaken for
+                continue
             if line.startswith('fn ') or line.startswith('const ') or line.startswith('static ') or line.startswith('promoted['):
                 start = i
                 # body ends at the first line that is exactly '}'
@@ -443,12 +447,14 @@ class Program:
                 if mconst:
                     pf = Function(mconst.group(1), 'fn ' + mconst.group(1) + '() -> ' + mconst.group(2) + ' {', start + 1)
                     pf.raw = ['fn ' + mconst.group(1) + '() -> ' + mconst.group(2) + ' {'] + lines[start + 1:j + 1]
+                    pf.prog = self
                     self.promoted[mconst.group(1)] = pf
                 if line.startswith('fn '):
                     header = line
                     name = self._fn_name(header)
                     f = Function(name, header, start + 1)
                     f.raw = lines[start:j + 1]
+                    f.prog = self
                     m = re.search(r'<impl at ([^:>]+):(\d+):\d+: (\d+):\d+>', name)
                     if m:
                         f.impl_loc = (m.group(1), int(m.group(2)))
